@@ -377,13 +377,12 @@ class C08(Engine):
         lpath = lp[0] if lp else None
         bad = bad or self._norm(lpath) not in want
         if bad:
-            sigc["cause"] = self._diagnose(name, cc)
-            # changes a directory-mtime comparison cannot see: mode changes (of the entry, of a symlink's target, of the
-            # directory itself) and entry changes stamped with the very mtime the cache recorded
-            cs = set(sigc["cause"].split("+"))
-            # (a directory that vanished and came back carries its old mtime: by itself that explains nothing, together with
-            #  one of the three invisible kinds it does not make them visible either)
-            sigc["mtime_blind"] = cs <= {"chmod", "dirmode", "same_tick", "dirgone"} and bool(cs & {"chmod", "dirmode", "same_tick"})
+            # a stale view is the recorded mtime-blind finding exactly when the culprit directory was NOT re-read by this
+            # lookup although the cache holds a listing of it whose recorded mtime equals the directory's mtime now: mode
+            # changes (entry, symlink target, directory), changes stamped with the very mtime of the last scan, a clock that
+            # stepped back and forth onto it.  Anything else (mtime differs and still stale, listing wrong right after a
+            # re-read, no culprit directory at all) is not covered.
+            sigc["cause"], sigc["mtime_blind"] = self._diagnose(name, cc)
             pend = [sigc["cause"]]
         if isin != found and not (len(want) > 1):
             V("cache.contains", f"`{name} in commands_cache` is {isin} but execvp {'finds ' + str(sorted(map(str, want))) if found else 'finds nothing'} ($PATH={pathstr!r}; pending changes: {pend})", **sigc, stale_positive=isin)
@@ -407,14 +406,19 @@ class C08(Engine):
         self.trace.append(("lookup", op["name"], got and got[len(self.R) :], isin, loc and loc[len(self.R) :], lpath and lpath[len(self.R) :]))
 
     def _diagnose(self, name, cc):
-        """Which directory listing of the cache disagrees with the directory, and what happened to that
-        directory since the cache last read it."""
+        """-> (what happened to the directory whose cached listing is wrong since the cache last read it, mtime-blind?)"""
         for rp in reversed(self.ex.get_paths(self.env)):
             ent = cc._paths_cache.get(rp)
             listed = ent is not None and name in ent.cmds
             if listed != self._runnable(os.path.join(rp, name)):
-                return "+".join(sorted({lab for lab, nm in self.pending.get(rp, ()) if nm in (None, name)})) or "unexplained"
-        return "merge"
+                labels = "+".join(sorted({lab for lab, nm in self.pending.get(rp, ()) if nm in (None, name)}))
+                try:
+                    same = ent is not None and os.path.getmtime(rp) == ent.mtime
+                except OSError:
+                    same = False
+                blind = same and rp not in self.scanned
+                return (labels or ("same_mtime" if blind else "unexplained")), blind
+        return "merge", False
 
     def _crosscheck(self, name, det, r1):
         """Sampled: the reference against the real execvp and the real sh."""
